@@ -149,6 +149,11 @@ func c15Run(cfgIdx int, hist []int) *mc.SeqOut {
 					fail("old-leader-failed-write", "delete of a missing key: %v %v", r, err)
 					return out
 				}
+				if i%10 == 9 {
+					// the sequencer runs beside the client; under the cooperative scheduler it has to be given the
+					// chance, or 100 requests in a row overrun the (shrunk, 100 slots) result ring
+					vrt.Quiesce()
+				}
 			}
 			vrt.Quiesce()
 		default:
